@@ -244,6 +244,30 @@ func runC03(c *mon.Ctx) {
 		for i := 0; i < nf; i++ {
 			faults = append(faults, injectSSOFault(r, rec, now, c03Faults[(k+i*7)%len(c03Faults)]))
 		}
+		oddStamp := ""
+		if na > 1 && len(rec.Assertions) == na && r.IntN(10) == 0 {
+			// a timestamp no check looks at (IssueInstant, AuthnInstant, SessionNotOnOrAfter) is unreadable in one
+			// assertion: the message may be refused for it, but it must not make the assertions after it disappear
+			// from what is checked
+			i := r.IntN(na - 1)
+			a := rec.Assertions[i]
+			bad := pick(r, []string{now.Format("2006-01-02 15:04:05"), "yesterday", "", now.Format(time.RFC1123), "2024-13-45T00:00:00Z"})
+			switch r.IntN(3) {
+			case 0:
+				a.IssueInstant = sim.S(bad)
+				oddStamp = fmt.Sprintf("IssueInstant@%d", i)
+			case 1:
+				if a.Authn != nil {
+					a.Authn.AuthnInstant = sim.S(bad)
+					oddStamp = fmt.Sprintf("AuthnInstant@%d", i)
+				}
+			default:
+				if a.Authn != nil {
+					a.Authn.SessionNotOnOrAfter = sim.S(bad)
+					oddStamp = fmt.Sprintf("SessionNotOnOrAfter@%d", i)
+				}
+			}
+		}
 		cfgIssuer := c03Iss
 		if r.IntN(4) == 0 {
 			cfgIssuer = ""
@@ -271,7 +295,7 @@ func runC03(c *mon.Ctx) {
 			cs.Note("%v", err)
 			continue
 		}
-		cs.Desc("na=%d faults=%v mode=%s cfgIssuer=%q acs=%q", na, faults, mode, cfgIssuer, c03ACS)
+		cs.Desc("na=%d faults=%v mode=%s cfgIssuer=%q acs=%q oddstamp=%q", na, faults, mode, cfgIssuer, c03ACS, oddStamp)
 		cs.Input([]byte(doc))
 		sp, _, _ := pool.SPSource(k, now, signer)
 		sp.AssertionConsumerServiceURL = c03ACS
@@ -280,8 +304,9 @@ func runC03(c *mon.Ctx) {
 		enc := sim.Encode(doc, sim.RawLevel)
 		V := ssoChecks(rec, now, cfgIssuer)
 		var verr, aerr error
+		var vresp *types.Response
 		pv, stack := mon.Guard(func() {
-			_, verr = sp.ValidateEncodedResponse(enc)
+			vresp, verr = sp.ValidateEncodedResponse(enc)
 			_, aerr = sp.RetrieveAssertionInfo(enc)
 		})
 		if pv != nil {
@@ -289,6 +314,16 @@ func runC03(c *mon.Ctx) {
 			continue
 		}
 		vc, ac := ErrClass(verr), ErrClass(aerr)
+		if verr == nil && len(vresp.Assertions) != len(rec.Assertions) {
+			cs.Nontrivial(cs.Description())
+			cs.Outcome("assertions-dropped")
+			cs.Violation("accepted-with-assertions-missing", "accepted with %d assertion(s) returned, the message carries %d (unchecked timestamp oddity: %q, faults %v)", len(vresp.Assertions), len(rec.Assertions), oddStamp, faults)
+			continue
+		}
+		if oddStamp != "" && verr != nil && vc == "other" {
+			cs.Outcome("rejected-for-unreadable-timestamp")
+			continue
+		}
 		if vc == "other" {
 			cs.Outcome("rejected-outside-profile")
 			cs.Violation("unexpected-rejection", "rejected outside the profile logic: %v", verr)
